@@ -163,6 +163,16 @@ func (s *Store) AddSourceSnapshot(ckpt *jobpb.SourceRunnerCheckpointCompleteRequ
 	return nil
 }
 
+// AbandonPendingCheckpoint drops a checkpoint that is still waiting for
+// acknowledgements. The job calls it when it starts a new assembly: members of
+// the abandoned assembly will never complete it, and while it stays pending no
+// new checkpoint can be created. Its id is not reused.
+func (s *Store) AbandonPendingCheckpoint() {
+	s.stateMu.Lock()
+	defer s.stateMu.Unlock()
+	s.state.pendingSnapshot = nil
+}
+
 func (s *Store) RegisterSourceSplitter(splitter connectors.SourceSplitter) {
 	s.stateMu.Lock()
 	defer s.stateMu.Unlock()
